@@ -50,6 +50,35 @@ def _here(lines, marker):
     return ['<<' + m] + body + [m]
 
 
+def _split_act(plines, which):
+    """the lines of the act program, with a second `[act]` header (after an empty declaration of another phase) in
+    front of the which-th line that begins an own-line part of the program (-stdin / -transformed-by) outside
+    parentheses, here-documents and continued lines; which = 0: one block"""
+    if not which:
+        return plines
+    cands = []
+    marker = None
+    depth = 0
+    for i, l in enumerate(plines):
+        st = l.strip()
+        if marker is not None:
+            if l == marker:
+                marker = None
+            continue
+        if i > 0 and depth == 0 and not plines[i - 1].rstrip().endswith('\\') and \
+                (st.startswith('-stdin ') or st.startswith('-transformed-by ')):
+            cands.append(i)
+        toks = st.split()
+        depth += toks.count('(') - toks.count(')')
+        for t in toks:
+            if t.startswith('<<') and len(t) > 2:
+                marker = t[2:]
+    if not cands:
+        return plines
+    i = cands[(which - 1) % len(cands)]
+    return plines[:i] + ['[before-assert]', '[act]'] + plines[i:]
+
+
 # ---- arguments -------------------------------------------------------------------
 def r_args(args, last=None, cont=None):
     """-> list of lines (the first continues the program line)"""
@@ -368,7 +397,7 @@ def r_case(case):
         if k == 'program':
             for c in act.get('comments_before', []):
                 lines.append(c)
-            lines += r_program(act['p'])
+            lines += _split_act(r_program(act['p']), act.get('split', 0))
         elif k == 'file':
             if act['variant'] == 'probe-is-interpreter':
                 first = '%s%s' % (REL_OPT[act['rel']], act['name'])
